@@ -36,7 +36,8 @@ BalanceTimeI(h, mi, s, ms, us, ns) ==
       mi2 == mi + s2 \div 60      h2 == h + mi2 \div 60
   IN [days |-> h2 \div 24, time |-> Time(h2 % 24, mi2 % 60, s2 % 60, ms2 % 1000, us2 % 1000, ns % 1000)]
 
-\* balance an exact signed ns total into a duration whose largest unit is `largest` (sign-uniform, truncating)
+\* balance an exact signed ns total into a duration whose largest unit is `largest` (sign-uniform, truncating);
+\* each field is then stored as a double (exact up to 2^53)
 BalanceDur(nsBig, largest) ==
   LET sg == nsBig.s
       a == Abs(nsBig)
@@ -55,7 +56,7 @@ BalanceDur(nsBig, largest) ==
       hF == IF li >= 7 THEN FromInt(n6.r) ELSE n5.q
       dF == IF li >= 7 THEN n6.q ELSE Zero
       S(b) == IF sg < 0 THEN Neg(b) ELSE b
-  IN Dur10(Zero, Zero, Zero, S(dF), S(hF), S(miF), S(sF), S(msF), S(usF), S(nsF))
+  IN DurF64(Dur10(Zero, Zero, Zero, S(dF), S(hF), S(miF), S(sF), S(msF), S(usF), S(nsF)))
 
 \* total ns of a duration's day + time fields (a day counting 24 h)
 DayTimeNs(D) == Add(Mul(D.d, DayNsBig), TimeNs(D))
@@ -63,8 +64,15 @@ DayTimeNs(D) == Add(Mul(D.d, DayNsBig), TimeNs(D))
 \* PlainTime.add / subtract: date units (incl. days) are ignored
 PlainTimeAdd(t, D) == Ok(AddNs(t, TimeNs(D)).time)
 PlainTimeSub(t, D) == Ok(AddNs(t, Neg(TimeNs(D))).time)
-\* PlainTime.round(unit, inc, mode): from midnight, wrapping
-PlainTimeRound(t, u, inc, mode) == Ok(AddNs(Midnight, RoundBig(TimeNsOf(t), IncNs(inc, u), mode)).time)
+\* PlainTime.round(unit, inc, mode) = Temporal's RoundTime: the quantity that is rounded is the time counted from the
+\* start of the unit's enclosing unit (from midnight for hour); admissible increments divide the enclosing unit, so the
+\* candidate multiples are the same instants as when counting from midnight - only the parity used by halfEven differs.
+ParentNsBig(u) == CASE u = "hour" -> DayNsBig [] u = "minute" -> UnitNsBig("hour") [] u = "second" -> UnitNsBig("minute")
+                    [] u = "millisecond" -> UnitNsBig("second") [] u = "microsecond" -> UnitNsBig("millisecond")
+                    [] u = "nanosecond" -> UnitNsBig("microsecond") [] u = "day" -> DayNsBig
+RoundQuantity(t, u) == FloorDivMod(TimeNsOf(t), ParentNsBig(u)).r
+RoundTimeTotal(t, u, inc, mode) == Add(Sub(TimeNsOf(t), RoundQuantity(t, u)), RoundBig(RoundQuantity(t, u), IncNs(inc, u), mode))
+PlainTimeRound(t, u, inc, mode) == Ok(AddNs(Midnight, RoundTimeTotal(t, u, inc, mode)).time)
 \* PlainTime.until/since with resolved settings
 PlainTimeDiff(t1, t2, largest, smallest, inc, mode, isSince) ==
   LET diff == Sub(TimeNsOf(t2), TimeNsOf(t1))
